@@ -11,6 +11,7 @@ from __future__ import annotations
 
 import datetime as dt
 import io
+from decimal import Decimal
 import itertools
 import math
 from typing import Any, Dict, List, Optional, Tuple
@@ -23,7 +24,7 @@ NAN = float("nan")
 DOMAINS: Dict[str, List[Any]] = {
     "long": [-1, 0, 1, 2, 2**53 + 1],
     "int": [-1, 0, 1, 2**31 - 1],
-    "double": [-1.0, 0.0, 0.5, 1.0, NAN, float("inf")],
+    "double": [-1.0, 0.0, 0.1, 0.5, 1.0, NAN, float("inf")],      # 0.1 is not exactly representable (Decimal literals)
     "float": [gen.f32(0.1), 0.0, gen.f32(0.30000001192092896), NAN, float("-inf")],
     "string": ["", "1", "10", "9", "a", "é", "https://example.org/path/a/1", "https://example.org/path/a/2"],
     "date": [dt.date(1969, 12, 31), dt.date(1970, 1, 1), dt.date(2024, 2, 29)],
@@ -38,10 +39,11 @@ OPS = ["==", "!=", "<", "<=", ">", ">="]
 CROSS_LITERALS: Dict[str, List[Any]] = {
     "date": [dt.datetime(1970, 1, 1, 12, 0), dt.datetime(1969, 12, 31, 23, 59, 59), dt.datetime(1970, 1, 1)],
     "timestamp": [dt.date(1970, 1, 1), dt.date(1969, 12, 31), dt.date(2024, 2, 29)],
-    "long": [0.5, 1.5, -0.5, 1.0],
+    "long": [0.5, 1.5, -0.5, 1.0, float(2 ** 53), 9.3e18, Decimal("1.5"), Decimal("1")],
     "int": [0.5, 1.0],
-    "double": [0, 1, -1],
-    "float": [0, 1],
+    "double": [0, 1, -1, Decimal("0.1"), Decimal("0.5"), 2 ** 53 + 1],
+    # a Python float (double) literal against a 32-bit column: the engine rounds the members of an IN set to float32
+    "float": [0, 1, 0.1, Decimal("0.5")],
 }
 
 
@@ -150,8 +152,19 @@ class C13(Check):
                         expr = to_pyarrow_compute_expression(exprs)
                         nmatch = arrow_tbl.filter(expr).num_rows
                     except Exception:
-                        res.count("truth_na")
-                        continue
+                        # the in-memory kernel refuses this literal type; ask the library itself to read the file
+                        # with pruning switched off (the property's own yardstick)
+                        import datashard.filters as _fl
+                        orig = _fl.prune_files_by_bounds
+                        _fl.prune_files_by_bounds = lambda dfs_, ex_, sc_: dfs_
+                        try:
+                            nmatch = len(t.scan(filter=flt))
+                            res.count("truth_from_unpruned_library_scan")
+                        except Exception:
+                            res.count("truth_na")
+                            continue
+                        finally:
+                            _fl.prune_files_by_bounds = orig
                     lit = flt["x"][1]
                     lclass = "nan-literal" if (isnan(lit) or (isinstance(lit, (list, tuple)) and any(isnan(v) for v in lit))) else "literal"
                     res.key([t_name, opname, fclass, lclass])
